@@ -58,7 +58,7 @@ def strategy(tier):
         expanding.case_strategy(tier, rot=False, max_ops=25).map(tag("exp")),
         expanding.case_strategy(tier, rot=True, max_ops=25).map(tag("exp")),
         cbloom.case_strategy(tier, max_ops=20).map(tag("cbloom")),
-        cms.case_strategy(tier, classes=("cms", "hh", "st"), max_ops=20).map(tag("cms")),
+        cms.case_strategy(tier, classes=("cms", "hh", "st"), max_ops=20, over_remove=True).map(tag("cms")),
         cuckoo.case_strategy(tier, max_ops=25).map(tag("cuckoo")),
         qf.case_strategy(tier, max_ops=45).map(tag("qf")), qf.case_strategy(tier, max_ops=45).map(tag("qf")),
     )
@@ -335,7 +335,7 @@ def run_case(case, ctx):
             t = _bloom_target(ctx, d, True, case)
             pool = d.pool
         elif s == "cms":
-            d = cms.CmsDriver(case, ctx, {})
+            d = cms.CmsDriver(case, ctx, {"allow_over_remove": True})
             d.run()
             t = _cms_target(ctx, d, case)
             pool = d.pool
